@@ -242,6 +242,9 @@ async def _process_group(
     routes_added = 0
     routes_withdrawn = 0
     errors: list[str] = []
+    # A group is all-or-nothing: every command is parsed and checked first, the RIBs are only
+    # touched once the whole group is known to be good
+    planned: list[tuple[bool, list[str], 'Route']] = []
 
     # Shared attributes from 'attributes ...' command (first in group)
     shared_attributes_route: Route | None = None
@@ -290,10 +293,12 @@ async def _process_group(
                     errors.append(f'invalid route: {error}')
                     continue
 
-                reactor.configuration.announce_route(cmd_peers, route)
-                all_peers.update(cmd_peers)
-                routes_added += 1
-                await asyncio.sleep(0)
+                error = _unresolvable(reactor, cmd_peers, route)
+                if error:
+                    errors.append(f'invalid route: {error}')
+                    continue
+
+                planned.append((True, cmd_peers, route))
 
         elif action_word == 'withdraw':
             # Parse the withdrawal - pass action='withdraw' for proper handling
@@ -307,13 +312,34 @@ async def _process_group(
                 if shared_attributes_route:
                     route = route.with_merged_attributes(shared_attributes_route.attributes)
 
-                reactor.configuration.withdraw_route(cmd_peers, route)
-                all_peers.update(cmd_peers)
-                routes_withdrawn += 1
-                await asyncio.sleep(0)
+                error = _unresolvable(reactor, cmd_peers, route)
+                if error:
+                    errors.append(f'invalid route: {error}')
+                    continue
+
+                planned.append((False, cmd_peers, route))
 
         else:
             errors.append(f'unknown action in group: {action_word}')
+
+    if errors:
+        # nothing has been applied: report why and refuse the whole group
+        if use_json:
+            reactor.processes.write(service, json.dumps({'status': 'group refused', 'errors': errors}))
+        else:
+            reactor.processes.write(service, f'group refused: {len(errors)} errors')
+        await reactor.processes.answer_error(service)
+        return
+
+    for announce, cmd_peers, route in planned:
+        if announce:
+            reactor.configuration.announce_route(cmd_peers, route)
+            routes_added += 1
+        else:
+            reactor.configuration.withdraw_route(cmd_peers, route)
+            routes_withdrawn += 1
+        all_peers.update(cmd_peers)
+        await asyncio.sleep(0)
 
     # Register flush callbacks for all affected peers
     flush_events = register_flush_callbacks(list(all_peers), reactor, sync_mode)
@@ -339,6 +365,19 @@ async def _process_group(
         reactor.processes.write(service, msg)
 
     await reactor.processes.answer_done(service)
+
+
+def _unresolvable(reactor: 'Reactor', peers: list[str], route: 'Route') -> str | None:
+    """Why the route can not be handed to one of the peers ("next-hop self" across families), or None."""
+    for name in peers:
+        neighbor = reactor.configuration.neighbors.get(name)
+        if neighbor is None or route.nlri.family().afi_safi() not in neighbor.families():
+            continue
+        try:
+            neighbor.resolve_self(route)
+        except Exception as exc:
+            return str(exc)
+    return None
 
 
 def _parse_routes(api: 'API', command: str, action: str = 'announce') -> list['Route']:
